@@ -115,9 +115,10 @@ def log_mode(qualnames=()):
 class Objective:
     """deterministic integer/dyadic-valued objective that records every batch it receives"""
 
-    def __init__(self, kind="onemax", scale=1.0, offset=0.0, reuse_buffer=False, int_offset=None):
+    def __init__(self, kind="onemax", scale=1.0, offset=0.0, reuse_buffer=False, int_offset=None, unsigned=False):
         self.kind, self.scale, self.offset = kind, scale, offset
         self.int_offset = int_offset        # not None: return int64 values  int_offset + round(4*value)
+        self.unsigned = unsigned            # ... as an unsigned array (int_offset > 0)
         self.batches = []
         self.reuse_buffer, self._buf = reuse_buffer, None
 
@@ -125,6 +126,8 @@ class Objective:
         v = self._raw(X)
         if self.int_offset is not None:
             v = np.int64(self.int_offset) + np.floor(4.0 * v).astype(np.int64)
+            if self.unsigned:
+                v = v.astype(np.uint64)
         return v
 
     def _raw(self, X):
